@@ -12,9 +12,11 @@ import (
 	"fmt"
 	"math"
 	"math/big"
+	"os"
 	"strings"
 	"sync"
 	"sync/atomic"
+	"time"
 
 	"verif/chk"
 	"verif/e3/util"
@@ -896,6 +898,12 @@ func run(r *chk.Run) {
 		return stop.Load()
 	}
 
+	t0 := time.Now()
+	phase := func(name string) {
+		if os.Getenv("VERIF_DEBUG") != "" {
+			fmt.Fprintf(os.Stderr, "c14: %s done at %.1fs (evals %d)\n", name, time.Since(t0).Seconds(), c.evals.Load())
+		}
+	}
 	// space 0: scalars, top level and as the only member of a small array / object value
 	var s0 int64
 	lat := append(append([]*ref.JDoc{}, A...), scalarLattice()...)
@@ -911,6 +919,7 @@ func run(r *chk.Run) {
 	})
 	s0 = int64(len(lat))
 
+	phase("space0")
 	// space 1: depth 1 over the full alphabet
 	var s1 atomic.Int64
 	r.Parallel(func(shard, n int) {
@@ -952,6 +961,7 @@ func run(r *chk.Run) {
 		}
 	})
 
+	phase("space1")
 	// space 2: every document over K with <= nodes nodes and depth <= depth2
 	var s2 atomic.Int64
 	r.Parallel(func(shard, n int) {
@@ -975,6 +985,7 @@ func run(r *chk.Run) {
 		}
 	})
 
+	phase("space2")
 	// space 3: every scalar of A below every chain of wrappers
 	var s3 atomic.Int64
 	r.Parallel(func(shard, n int) {
@@ -1009,6 +1020,7 @@ func run(r *chk.Run) {
 		}
 	})
 
+	phase("space3")
 	// specials
 	sp := specials(r.Thorough())
 	r.Parallel(func(shard, n int) {
@@ -1019,6 +1031,7 @@ func run(r *chk.Run) {
 		}
 	})
 
+	phase("specials")
 	// ---- evidence ----
 	r.Eval(c.evals.Load())
 	r.DistinctN(c.distinct.Load())
